@@ -10,3 +10,4 @@ import PolyVerif.Props.C19
 import PolyVerif.Props.C06
 import PolyVerif.Props.C07
 import PolyVerif.Props.C15
+import PolyVerif.Props.C14
